@@ -34,10 +34,17 @@ def select(candidates, limit=24, per_rule=6, kf_probes=()):
     for r in sorted(by_rule):
         lst = sorted(by_rule[r], key=lambda c: (maybe_known(c), sum(len(t) for t in c["trace"]["threads"]), c["run"]))
         k = 0
+        k_known = 0
         for c in lst:
             key = (c["pop"], c["run"], c.get("build"))
             if key in seen:
                 continue
+            # runs that may belong to a recorded finding: two per rule are enough to confirm it
+            # (the others are counted in the evidence); their traces can be long and slow to shrink
+            if maybe_known(c):
+                if k_known >= 2:
+                    continue
+                k_known += 1
             cc = dict(c)
             cc["violations"] = [v for v in c["violations"] if v["rule"] == r] + [v for v in c["violations"] if v["rule"] != r]
             cc["forced_rule"] = r
